@@ -75,7 +75,9 @@ func (i StringsInspector) SetWithBuffer(dst, value any, buf AccumulativeBuffer, 
 		case string:
 			p, txt = byteconv.S2B(value.(string)), true
 		case *string:
-			p, txt = byteconv.S2B(*value.(*string)), true
+			if x := value.(*string); x != nil {
+				p, txt = byteconv.S2B(*x), true
+			}
 		}
 		if txt {
 			ss[idx] = byteconv.B2S(buf.Bufferize(p))
@@ -85,7 +87,9 @@ func (i StringsInspector) SetWithBuffer(dst, value any, buf AccumulativeBuffer, 
 		case []byte:
 			p, txt = value.([]byte), true
 		case *[]byte:
-			p, txt = *value.(*[]byte), true
+			if x := value.(*[]byte); x != nil {
+				p, txt = *x, true
+			}
 		}
 		if txt {
 			pp[idx] = buf.Bufferize(p)
@@ -260,7 +264,9 @@ func (i StringsInspector) CopyTo(src, dst any, buf AccumulativeBuffer) error {
 	case []string:
 		return ErrMustPointerType
 	case *[]string:
-		ss = dst.(*[]string)
+		if ss = dst.(*[]string); ss == nil {
+			return ErrUnsupportedType
+		}
 		switch {
 		case len(ssR) > 0:
 			for j := 0; j < len(ssR); j++ {
@@ -276,7 +282,9 @@ func (i StringsInspector) CopyTo(src, dst any, buf AccumulativeBuffer) error {
 	case [][]byte:
 		return ErrMustPointerType
 	case *[][]byte:
-		pp = dst.(*[][]byte)
+		if pp = dst.(*[][]byte); pp == nil {
+			return ErrUnsupportedType
+		}
 		switch {
 		case len(ssR) > 0:
 			for j := 0; j < len(ssR); j++ {
@@ -351,11 +359,17 @@ func (i StringsInspector) Reset(x any) error {
 		return ErrMustPointerType
 	case *[]string:
 		ss := x.(*[]string)
+		if ss == nil {
+			return ErrUnsupportedType
+		}
 		*ss = (*ss)[:0]
 	case [][]byte:
 		return ErrMustPointerType
 	case *[][]byte:
 		pp := x.(*[][]byte)
+		if pp == nil {
+			return ErrUnsupportedType
+		}
 		*pp = (*pp)[:0]
 	}
 	return nil
@@ -367,11 +381,16 @@ func (i StringsInspector) sp(x any) (ss []string, pp [][]byte, ok bool) {
 	case []string:
 		ss = x.([]string)
 	case *[]string:
-		ss = *(x.(*[]string))
+		// a nil pointer holds no sequence
+		if p := x.(*[]string); p != nil {
+			ss = *p
+		}
 	case [][]byte:
 		pp = x.([][]byte)
 	case *[][]byte:
-		pp = *(x.(*[][]byte))
+		if p := x.(*[][]byte); p != nil {
+			pp = *p
+		}
 	default:
 		ok = false
 	}
